@@ -160,8 +160,30 @@ def run(ctx):
                    res.chunks_total + lres.chunks_total],
         'sweep_wall_s': round(res.wall_s + lres.wall_s, 1),
     }
+    # dynamic slice: exactly-once while instances are moved between
+    # allocations / re-prioritised / removed (statex over World-A histories)
+    from mc import c06_moves
+    moves = c06_moves.run_moves(ctx)
+    mc = moves['coverage']
+    cov['moves_slice'] = {
+        'states': mc['states'], 'transitions': mc['transitions'],
+        'configs': mc['configs'], 'caps_hit': mc['caps_hit'],
+        'nontrivial_counters': mc['nontrivial_counters'],
+        'samples': mc['samples'][:2],
+    }
+    cov['states'] += mc['states']
+    cov['transitions'] += mc['transitions']
+    cov['evaluations'] += mc['transitions']
+    cov['traces_validated_against_impl'] += mc['transitions']
+    if mc['caps_hit']:
+        cov['exhaustive'] = False
+        cov.setdefault('caps_hit', []).extend(mc['caps_hit'])
+    violations = violations + moves['violations']
     return {'coverage': cov, 'violations': violations,
-            'assumptions': ASSUMPTIONS}
+            'assumptions': ASSUMPTIONS + [
+                'dynamic exactly-once slice: World A (mc/worlds/cellworld.py) '
+                'K2 with a third allocation, moves between allocations, '
+                'bounded depth/deviations in coverage.moves_slice']}
 
 
 def _plain(x):
@@ -169,6 +191,9 @@ def _plain(x):
 
 
 def replay(ctx, data):
+    if 'config' in data and 'history' in data:
+        from mc import c06_moves
+        return c06_moves.replay_moves(ctx, data)
     if data.get('kind') == 'loader':
         out = L.replay_case(data['case'])
     else:
